@@ -316,6 +316,14 @@ func packageState(repo string) {
 			return kindOfType(v.Type)
 		case *ast.UnaryExpr:
 			if v.Op == token.AND {
+				// `&cobra.Command{…}`: the command objects of the CLI (configuration read by cobra, whatever they are called)
+				if cl, ok := v.X.(*ast.CompositeLit); ok {
+					if sel, ok := cl.Type.(*ast.SelectorExpr); ok {
+						if id, ok := sel.X.(*ast.Ident); ok && id.Name == "cobra" && sel.Sel.Name == "Command" {
+							return "cobra"
+						}
+					}
+				}
 				return "pointer"
 			}
 			return kindOfValue(v.X)
